@@ -22,7 +22,7 @@ func checkC07(c *Check) {
 
 	checkC07HandlerOnly(c)
 	checkC07ImportErrors(c)
-	checkSilentEvaluation(c, c.Rule("R7.8", "a trial type check (EvaluateSilent) leaves the shared diagnostic state as it found it", 3))
+	checkSilentEvaluation(c, c.Rule("R7.8", "a trial type check (EvaluateSilent) leaves the shared diagnostic state as it found it", 1))
 	_, isWrapper := handlerHelpers(c)
 	// ---------------- R7.2 flag writers ----------------
 	r2 := c.Rule("R7.2", "errored/Faulty have closed writer sets; Faulty := errored is the last diagnostic-capable step; checker phases mark before delivering", 8)
